@@ -13,9 +13,12 @@ def monoActsOf (v : SetView) (cur upd : String) (b : Int) (E : List Int) (P : Li
       (if cond = [] then walkActs (walkTarget v upd reps) else monoCond cond)
      else [])
 
-/-- the class: normal, settled, OrderedReady, no Failed/Succeeded pod outside the desired set -/
-def MonoK (h : Hashing) (j : SyncIn) : Prop :=
-  NSC h j ∧ j.view.parallel = false ∧ ∀ c ∈ j.pods, c.pod.fs = true → inRange (bOf j) (EOf j) c.pod.ord = true
+/-- the class (any update strategy): normal, settled, OrderedReady, no Failed/Succeeded pod outside the desired set -/
+def MonoK0 (h : Hashing) (j : SyncIn) : Prop :=
+  NSC h j ∧ j.view.parallel = false ∧ (∀ c ∈ j.pods, c.pod.fs = true → inRange (bOf j) (EOf j) c.pod.ord = true)
+
+/-- the same with the `rollingUpdate` block present (or OnDelete) -/
+def MonoK (h : Hashing) (j : SyncIn) : Prop := MonoK0 h j ∧ PartOk j.view
 
 section
 variable {h : Hashing} {j : SyncIn}
@@ -40,7 +43,7 @@ theorem mono_reps_kinds (hs : NSC h j) (cur upd : String) :
       simp only [Bool.and_eq_true, beq_iff_eq] at hrr
       simp [Pod.fs, Pod.failed, Pod.succeeded, hrr.1]
 
-theorem mono_cond_kinds (hk : MonoK h j) :
+theorem mono_cond_kinds (hk : MonoK0 h j) :
     ∀ c ∈ (condemnedOf (bOf j) (EOf j) (j.pods.map (·.pod))).reverse, c.runningAndReady = true ∧ c.terminating = false := by
   obtain ⟨hs, _, hnofs⟩ := hk
   intro q hq
@@ -56,7 +59,7 @@ theorem mono_cond_kinds (hk : MonoK h j) :
   · exact hrr
 
 /-- **the OrderedReady reconcile, no faults, on a world of the class**: it ends `.ok` and issues `monoActsOf` -/
-theorem recon_mono (hk : MonoK h j) :
+theorem recon_mono (hk : MonoK0 h j) :
     hk.1.norm.recon.2 = .ok ∧
     hk.1.norm.recon.1.acts = monoActsOf j.view hk.1.norm.curRev.name hk.1.norm.updRev.name (bOf j) (EOf j) j.pods := by
   have hs := hk.1
